@@ -70,6 +70,18 @@ func (e VerificationError) Is(other error) bool {
 	return is
 }
 
+// Unwrap returns the errors the VerificationError was created with, so callers can recognize the cause of the failure
+// (e.g. types.ErrRevoked for a presentation that contains a revoked credential) using errors.Is and errors.As.
+func (e VerificationError) Unwrap() []error {
+	var causes []error
+	for _, arg := range e.args {
+		if cause, ok := arg.(error); ok {
+			causes = append(causes, cause)
+		}
+	}
+	return causes
+}
+
 func newVerificationError(msg string, args ...interface{}) error {
 	return VerificationError{msg: msg, args: args}
 }
